@@ -119,3 +119,35 @@ def cases(rng, tier):
 
 def nontrivial(c):
     return c[0][0] == 0 and any(o[0] in (0, 7, 10) for o in c[4])
+
+
+def extra_checks(ctx, cases_, impl_lines, model_lines_):
+    """Sizes beyond 32 bits.  The theorems are about N (no bound); the correspondence above runs files of at most a
+    few KiB.  Here the REAL appender opens a SPARSE pre-existing file of 2^32-1 .. 2^40 bytes (no data blocks), the
+    real SizeTrigger has limit size+10, and two records of 5 and 10 bytes are appended: the length shown at each
+    consultation must be the length on disk (pre-existing content included) and the trigger must fire at the second
+    record, not before and not later (C06_len_is_disk_size / the rule `len > limit`)."""
+    vc = ctx["vc"]
+    sizes = [(1 << 32) - 1, 1 << 32, (1 << 32) + 1, (1 << 32) + 4096, (1 << 33) + 7, (1 << 40) + 3, (1 << 31) - 1, 1 << 31]
+    lines = [vc.show([99, s]) for s in sizes]
+    res = vc.run_lines([ctx["vh"]], lines, timeout_per_batch=300)
+    ran = 0
+    out = []
+    for s, ln, r in zip(sizes, lines, res):
+        try:
+            v = vc.parse(r)
+        except Exception:
+            out.append(("pre-existing file of %d bytes: the appender did not survive (%s)" % (s, r[:80]),
+                        {"case_line": ln, "note": "run with: echo '<case_line>' | .cache/harness/.../c06"}))
+            break
+        if v == []:
+            continue          # the file system refuses a (sparse) file of that size
+        ran += 1
+        want = [[s + 5, s + 5, 0], [s + 15, s + 15, 1], 0]
+        if v != want:
+            out.append(("pre-existing (sparse) file of %d bytes, limit %d, records of 5 and 10 bytes: (shown, on disk, "
+                        "fired) per consultation and #errors = %r, the property says %r" % (s, s + 10, v, want),
+                        {"case_line": ln, "sizes": sizes}))
+            break
+    ctx.setdefault("xcheck", {})["huge_sparse_files_run"] = ran
+    return out
